@@ -52,7 +52,18 @@ def expect (o : CodeOp) (s : State) : Option State :=
   | .car, .list (x :: _) :: l => some { s with code := x :: l }
   | .cdr, .list (_ :: xs) :: l => some { s with code := .list xs :: l }
   | .cdr, .list [] :: l => some { s with code := .list [] :: l }
+  -- "if the top item is not a list the empty list is pushed"
+  | .cdr, _ :: l => some { s with code := .list [] :: l }
+  -- "( A B )" and "X" give "( X A B )": an atom is consed onto the (coerced) list
+  | .cons, top :: second :: l => if isList second then none else some { s with code := .list (second :: consElems top) :: l }
   | _, _ => none
+
+/-- the printed atoms of an item, in depth-first order -/
+def atomsOf (t : Item) : List String := ((pts t).filter fun q => !isList q).map Item.show
+
+/-- CONS / LIST / APPEND build their result out of both operands: no atom of either is lost, none invented -/
+def keepsAtoms (top second result : Item) : Bool :=
+  (atomsOf result).isPerm (atomsOf second ++ atomsOf top)
 
 /-- INSERT at a valid interior index: a following EXTRACT at the same index yields the inserted item,
 the points before it that are atoms are unchanged, and the size changes by the sizes of the two subtrees -/
